@@ -28,14 +28,15 @@ SPEC = dict(
          "against 260 entries that all match one word, with every variable the program reads from its environment (names taken from os.Getenv / LookupEnv "
          "calls in the tree under test) set to large, negative and non-numeric values in three quarters of the runs: the 'Searching for:' line must carry exactly the "
          "validated query; a refused query or limit prints no such line, no results and records nothing in the history; an accepted run prints at most 100 "
-         "results and at most the limit asked for. Non-trivial = distinct input (hashed) that combines at least two of {control character, "
+         "results and at most the limit asked for. A third of the queries with blanks are handed over word by word (one argument per word, a sixth of all runs around the 1000-byte bound); a tenth hold "
+         "full-width or small-form compatibility characters, among them the look-alikes of the metacharacters. Non-trivial = distinct input (hashed) that combines at least two of {control character, "
          "whitespace other than single inner U+0020, metacharacter, invalid UTF-8, length >= 990 bytes}.",
     floors=T({"evaluations": 300000, "distinct_nontrivial": 100000, "exhaustive-1": 120, "exhaustive-2": 14400, "limits": 500,
               "random": 200000, "boundary": 40000, "invalid-heavy": 6000, "accepted": 60000, "rejected-blank": 10000,
-              "rejected-long": 10000, "rejected-meta": 40000, "cli-accepted": 60, "cli-rejected": 80, "cli-rejected-limit": 50, "cli-runs-with-program-variables-set": 120, "cli-answers-with-100-results": 3, "cli-answers-with-5-or-more-results": 40, "calls-to-neighbouring-validation-functions": 4000, "concurrent-validations": 300000, "long-whitespace-runs": 12000},
+              "rejected-long": 10000, "rejected-meta": 40000, "cli-queries-handed-over-word-by-word": 40, "cli-queries-over-1000-bytes-handed-over-word-by-word": 10, "cli-accepted": 60, "cli-rejected": 80, "cli-rejected-limit": 50, "cli-runs-with-program-variables-set": 120, "cli-answers-with-100-results": 3, "cli-answers-with-5-or-more-results": 40, "calls-to-neighbouring-validation-functions": 4000, "concurrent-validations": 300000, "long-whitespace-runs": 12000},
              {"evaluations": 12000000, "distinct_nontrivial": 2000000, "exhaustive-1": 120, "exhaustive-2": 14400, "exhaustive-3": 64000,
               "limits": 500, "random": 10000000, "boundary": 2000000, "invalid-heavy": 300000, "accepted": 3000000,
-              "rejected-blank": 500000, "rejected-long": 750000, "rejected-meta": 2000000, "cli-accepted": 600, "cli-rejected": 800, "cli-rejected-limit": 500, "cli-runs-with-program-variables-set": 1200, "cli-answers-with-100-results": 30, "cli-answers-with-5-or-more-results": 400, "calls-to-neighbouring-validation-functions": 150000, "concurrent-validations": 3000000, "long-whitespace-runs": 300000}),
+              "rejected-blank": 500000, "rejected-long": 750000, "rejected-meta": 2000000, "cli-queries-handed-over-word-by-word": 400, "cli-queries-over-1000-bytes-handed-over-word-by-word": 100, "cli-accepted": 600, "cli-rejected": 800, "cli-rejected-limit": 500, "cli-runs-with-program-variables-set": 1200, "cli-answers-with-100-results": 30, "cli-answers-with-5-or-more-results": 400, "calls-to-neighbouring-validation-functions": 150000, "concurrent-validations": 3000000, "long-whitespace-runs": 300000}),
     assumptions=[
         "'characters' are counted as Go runes, an invalid UTF-8 byte counting one (so U+FFFD substitution does not make a query 'longer'); "
         "'at most 1000 bytes' is measured on the input as given",
